@@ -62,13 +62,60 @@ public:
     std::string printVariable(const VariablePtr &variable, IdList &idList, bool autoIds);
 };
 
+/**
+ * @brief Escape text so that it can be written as the value of an XML attribute.
+ *
+ * The printer assembles the document by concatenation, so the characters which
+ * are special in attribute values have to be replaced with their references
+ * (otherwise an '&', '<' or '"' in a name, an identifier or an import URL yields
+ * a document which is not well-formed and printModel() returns an empty string).
+ *
+ * @param text The attribute value.
+ *
+ * @return The escaped attribute value.
+ */
+std::string escapeAttribute(const std::string &text)
+{
+    std::string escaped;
+    escaped.reserve(text.size());
+    for (const char c : text) {
+        switch (c) {
+        case '&':
+            escaped += "&amp;";
+            break;
+        case '<':
+            escaped += "&lt;";
+            break;
+        case '>':
+            escaped += "&gt;";
+            break;
+        case '"':
+            escaped += "&quot;";
+            break;
+        case '\t':
+            escaped += "&#9;";
+            break;
+        case '\n':
+            escaped += "&#10;";
+            break;
+        case '\r':
+            escaped += "&#13;";
+            break;
+        default:
+            escaped += c;
+            break;
+        }
+    }
+    return escaped;
+}
+
 std::string printMapVariables(const VariablePairPtr &variablePair, IdList &idList, bool autoIds)
 {
-    std::string mapVariables = "<map_variables variable_1=\"" + variablePair->variable1()->name() + "\""
-                               + " variable_2=\"" + variablePair->variable2()->name() + "\"";
+    std::string mapVariables = "<map_variables variable_1=\"" + escapeAttribute(variablePair->variable1()->name()) + "\""
+                               + " variable_2=\"" + escapeAttribute(variablePair->variable2()->name()) + "\"";
     std::string mappingId = Variable::equivalenceMappingId(variablePair->variable1(), variablePair->variable2());
     if (!mappingId.empty()) {
-        mapVariables += " id=\"" + mappingId + "\"";
+        mapVariables += " id=\"" + escapeAttribute(mappingId) + "\"";
     } else if (autoIds) {
         mapVariables += " id=\"" + makeUniqueId(idList) + "\"";
     }
@@ -115,12 +162,12 @@ std::string printConnections(const ComponentMap &componentMap, const VariableMap
             ++componentMapIndex2;
         }
         // Serialise out the new connection.
-        connections += "<connection component_1=\"" + currentComponent1->name() + "\"";
+        connections += "<connection component_1=\"" + escapeAttribute(currentComponent1->name()) + "\"";
         if (currentComponent2 != nullptr) {
-            connections += " component_2=\"" + currentComponent2->name() + "\"";
+            connections += " component_2=\"" + escapeAttribute(currentComponent2->name()) + "\"";
         }
         if (!connectionId.empty()) {
-            connections += " id=\"" + connectionId + "\"";
+            connections += " id=\"" + escapeAttribute(connectionId) + "\"";
         } else if (autoIds) {
             connections += " id=\"" + makeUniqueId(idList) + "\"";
         }
@@ -209,10 +256,10 @@ std::string Printer::PrinterImpl::printUnits(const UnitsPtr &units, IdList &idLi
         repr += "<units";
         std::string unitsName = units->name();
         if (!unitsName.empty()) {
-            repr += " name=\"" + unitsName + "\"";
+            repr += " name=\"" + escapeAttribute(unitsName) + "\"";
         }
         if (!units->id().empty()) {
-            repr += " id=\"" + units->id() + "\"";
+            repr += " id=\"" + escapeAttribute(units->id()) + "\"";
         } else if (autoIds) {
             repr += " id=\"" + makeUniqueId(idList) + "\"";
         }
@@ -234,11 +281,11 @@ std::string Printer::PrinterImpl::printUnits(const UnitsPtr &units, IdList &idLi
                     repr += " multiplier=\"" + convertToString(multiplier) + "\"";
                 }
                 if (!prefix.empty()) {
-                    repr += " prefix=\"" + prefix + "\"";
+                    repr += " prefix=\"" + escapeAttribute(prefix) + "\"";
                 }
-                repr += " units=\"" + reference + "\"";
+                repr += " units=\"" + escapeAttribute(reference) + "\"";
                 if (!id.empty()) {
-                    repr += " id=\"" + id + "\"";
+                    repr += " id=\"" + escapeAttribute(id) + "\"";
                 } else if (autoIds) {
                     repr += " id=\"" + makeUniqueId(idList) + "\"";
                 }
@@ -262,10 +309,10 @@ std::string Printer::PrinterImpl::printComponent(const ComponentPtr &component, 
         repr += "<component";
         std::string componentName = component->name();
         if (!componentName.empty()) {
-            repr += " name=\"" + componentName + "\"";
+            repr += " name=\"" + escapeAttribute(componentName) + "\"";
         }
         if (!component->id().empty()) {
-            repr += " id=\"" + component->id() + "\"";
+            repr += " id=\"" + escapeAttribute(component->id()) + "\"";
         } else if (autoIds) {
             repr += " id=\"" + makeUniqueId(idList) + "\"";
         }
@@ -312,10 +359,10 @@ std::string Printer::PrinterImpl::printEncapsulation(const ComponentPtr &compone
     std::string componentName = component->name();
     std::string repr = "<component_ref";
     if (!componentName.empty()) {
-        repr += " component=\"" + componentName + "\"";
+        repr += " component=\"" + escapeAttribute(componentName) + "\"";
     }
     if (!component->encapsulationId().empty()) {
-        repr += " id=\"" + component->encapsulationId() + "\"";
+        repr += " id=\"" + escapeAttribute(component->encapsulationId()) + "\"";
     } else if (autoIds) {
         repr += " id=\"" + makeUniqueId(idList) + "\"";
     }
@@ -344,19 +391,19 @@ std::string Printer::PrinterImpl::printVariable(const VariablePtr &variable, IdL
     std::string initial_value = variable->initialValue();
     std::string interface_type = variable->interfaceType();
     if (!name.empty()) {
-        repr += " name=\"" + name + "\"";
+        repr += " name=\"" + escapeAttribute(name) + "\"";
     }
     if (!units.empty()) {
-        repr += " units=\"" + units + "\"";
+        repr += " units=\"" + escapeAttribute(units) + "\"";
     }
     if (!initial_value.empty()) {
-        repr += " initial_value=\"" + initial_value + "\"";
+        repr += " initial_value=\"" + escapeAttribute(initial_value) + "\"";
     }
     if (!interface_type.empty()) {
-        repr += " interface=\"" + interface_type + "\"";
+        repr += " interface=\"" + escapeAttribute(interface_type) + "\"";
     }
     if (!id.empty()) {
-        repr += " id=\"" + id + "\"";
+        repr += " id=\"" + escapeAttribute(id) + "\"";
     } else if (autoIds) {
         repr += " id=\"" + makeUniqueId(idList) + "\"";
     }
@@ -373,7 +420,7 @@ std::string Printer::PrinterImpl::printResetChild(const std::string &childLabel,
     if (!childId.empty() || !math.empty()) {
         repr += "<" + childLabel;
         if (!childId.empty()) {
-            repr += " id=\"" + childId + "\"";
+            repr += " id=\"" + escapeAttribute(childId) + "\"";
         } else if (autoIds) {
             repr += " id=\"" + makeUniqueId(idList) + "\"";
         }
@@ -397,16 +444,16 @@ std::string Printer::PrinterImpl::printReset(const ResetPtr &reset, IdList &idLi
     bool hasChild = false;
 
     if (variable) {
-        repr += " variable=\"" + variable->name() + "\"";
+        repr += " variable=\"" + escapeAttribute(variable->name()) + "\"";
     }
     if (testVariable) {
-        repr += " test_variable=\"" + testVariable->name() + "\"";
+        repr += " test_variable=\"" + escapeAttribute(testVariable->name()) + "\"";
     }
     if (reset->isOrderSet()) {
         repr += " order=\"" + convertToString(reset->order()) + "\"";
     }
     if (!rid.empty()) {
-        repr += " id=\"" + rid + "\"";
+        repr += " id=\"" + escapeAttribute(rid) + "\"";
     } else if (autoIds) {
         repr += " id=\"" + makeUniqueId(idList) + "\"";
     }
@@ -458,9 +505,9 @@ std::string Printer::PrinterImpl::printImports(const ModelPtr &model, IdList &id
         }
     }
     for (auto &importSource : collatedImportSources) {
-        repr += "<import xmlns:xlink=\"http://www.w3.org/1999/xlink\" xlink:href=\"" + importSource->url() + "\"";
+        repr += "<import xmlns:xlink=\"http://www.w3.org/1999/xlink\" xlink:href=\"" + escapeAttribute(importSource->url()) + "\"";
         if (!importSource->id().empty()) {
-            repr += " id=\"" + importSource->id() + "\"";
+            repr += " id=\"" + escapeAttribute(importSource->id()) + "\"";
         } else if (autoIds) {
             repr += " id=\"" + makeUniqueId(idList) + "\"";
         }
@@ -468,9 +515,9 @@ std::string Printer::PrinterImpl::printImports(const ModelPtr &model, IdList &id
 
         for (const UnitsPtr &units : importedUnits) {
             if (units->importSource() == importSource) {
-                repr += "<units units_ref=\"" + units->importReference() + "\" name=\"" + units->name() + "\"";
+                repr += "<units units_ref=\"" + escapeAttribute(units->importReference()) + "\" name=\"" + escapeAttribute(units->name()) + "\"";
                 if (!units->id().empty()) {
-                    repr += " id=\"" + units->id() + "\"";
+                    repr += " id=\"" + escapeAttribute(units->id()) + "\"";
                 } else if (autoIds) {
                     repr += " id=\"" + makeUniqueId(idList) + "\"";
                 }
@@ -479,9 +526,9 @@ std::string Printer::PrinterImpl::printImports(const ModelPtr &model, IdList &id
         }
         for (const ComponentPtr &component : importedComponents) {
             if (component->importSource() == importSource) {
-                repr += "<component component_ref=\"" + component->importReference() + "\" name=\"" + component->name() + "\"";
+                repr += "<component component_ref=\"" + escapeAttribute(component->importReference()) + "\" name=\"" + escapeAttribute(component->name()) + "\"";
                 if (!component->id().empty()) {
-                    repr += " id=\"" + component->id() + "\"";
+                    repr += " id=\"" + escapeAttribute(component->id()) + "\"";
                 } else if (autoIds) {
                     repr += " id=\"" + makeUniqueId(idList) + "\"";
                 }
@@ -529,10 +576,10 @@ std::string Printer::printModel(const ModelPtr &model, bool autoIds)
     std::string repr;
     repr += "<?xml version=\"1.0\" encoding=\"UTF-8\"?><model xmlns=\"http://www.cellml.org/cellml/2.0#\"";
     if (!model->name().empty()) {
-        repr += " name=\"" + model->name() + "\"";
+        repr += " name=\"" + escapeAttribute(model->name()) + "\"";
     }
     if (!model->id().empty()) {
-        repr += " id=\"" + model->id() + "\"";
+        repr += " id=\"" + escapeAttribute(model->id()) + "\"";
     } else if (autoIds) {
         repr += " id=\"" + makeUniqueId(idList) + "\"";
     }
@@ -572,7 +619,7 @@ std::string Printer::printModel(const ModelPtr &model, bool autoIds)
     if (!componentEncapsulation.empty()) {
         repr += "<encapsulation";
         if (!model->encapsulationId().empty()) {
-            repr += " id=\"" + model->encapsulationId() + "\">";
+            repr += " id=\"" + escapeAttribute(model->encapsulationId()) + "\">";
         } else if (autoIds) {
             repr += " id=\"" + makeUniqueId(idList) + "\">";
         } else {
